@@ -334,7 +334,7 @@ def splitLines (s : String) : List String := splitLinesAux s.toList []
 def pyLines (s : String) : List String := (splitLines s).map (· ++ "\n")
 
 /-- `_get_gql_variable_name`: `str_to_snake_case(operation_name).upper() + "_GQL"` -/
-def gqlVarName (snake : String) : String := snake.toUpper ++ "_GQL"
+def gqlVarName (snake : String) : String := upperAscii snake ++ "_GQL"
 
 /-- `generate_operation_str` -/
 def extractOperationStr (st : ExtractState) (c : Call) (s : String) : M ExtractState :=
@@ -446,7 +446,7 @@ def fwdStoreImported (st : FwdState) (body : List Top) : FwdState :=
     | some i =>
       match i.module with
       | some mname =>
-        if i.level != 1 && !mname.startsWith "." then st
+        if i.level != 1 && !startsWithDot mname then st
         else i.names.foldl (fun st (n : String × Option String) =>
           { st with importedClasses := aset n.1 (dotted i.level mname) st.importedClasses }) st
       | none => st
